@@ -2609,7 +2609,7 @@ class Convex:
                 output += value_out
             elif self.xtype == 'T':
                 expo = self.params[0] / self.params[1]
-                output = self.multiplier*self.sign*(value_in ** expo) + value_out
+                output = self.multiplier*self.sign*(abs(value_in) ** expo) + value_out
             else:
                 raise ValueError('Unsupported convex/concave expression.')
 
@@ -2774,6 +2774,33 @@ class PerspConvex(Convex):
     def sum(self, axis=None):
 
         raise ValueError('Convex functions do not support the sum() method.')
+
+    def __call__(self):
+
+        if self.model.mtype != 'R':
+            raise ValueError('Unsupported affine expression.')
+
+        if self.model.solution is None:
+            raise SyntaxError('No available solution!')
+
+        value_in = self.affine_in()
+        if isinstance(self.affine_scale, (Vars, Affine)):
+            value_scale = self.affine_scale()
+        else:
+            value_scale = self.affine_scale
+        if isinstance(self.affine_out, Affine):
+            value_out = self.affine_out()
+        else:
+            value_out = self.affine_out
+
+        if self.xtype == 'X':
+            value = value_scale * np.exp(value_in / value_scale)
+            return self.multiplier*self.sign*value + value_out
+        elif self.xtype == 'L':
+            value = value_scale * np.log(value_in / value_scale)
+            return - self.multiplier*self.sign*value + value_out
+        else:
+            raise ValueError('Unsupported convex/concave expression.')
 
     def __le__(self, other):
 
